@@ -38,7 +38,7 @@ SPEC = dict(
          "non-trivial. Tags: tree = shared subtrees (sums, products, integer/rational/symbolic powers, negative powers, "
          "sin cos log exp atan2 f g); addargs / mulargs = Add / Mul argument lists sharing >= 2 arguments "
          "(match_common_args, FuncArgTracker); mixed = both; xnames = inputs that already use x0..x3 (the numbering "
-         "must skip them); userfn = user FunctionSymbols named add / mul / pow; binders = the names x0 x1 x2 occur only inside Derivative / Subs nodes (variable, body, point) and function arguments, next to repeated subexpressions; fixed = boundary cases. "
+         "must skip them); userfn = user FunctionSymbols named add / mul / pow; binders = the names x0 x1 x2 occur only inside Derivative / Subs nodes (variable, body, point) and function arguments, next to repeated subexpressions; markerfn = 2-3 user FunctionSymbols named like the per-call cse markers (_cse_add, _cse__add, _cse___add, _cse_x, _cse_ ...) over shared sub-sums / sub-products; fixed = boundary cases. "
          "impl_stats: cse_calls, replacements_total, backsubst_eq_without_expand / _only_after_expand / "
          "_equal_by_value_only (how the oracle decided), numeric_points_judged / _discarded, "
          "subs_backsubst_not_eq_counted_only.",
